@@ -21,14 +21,19 @@ harness on every run), the signature scheme (only `verify` is used; unforgeabili
 "the signature verifies" into "the publisher signed this payload").
 
 Variants. `cfg : Cfg` = which of the four repairs of the padding/sharding layer the code has; all
-four are in /repo (a2bceaf, 32710c6, 8f80b72, d76716c), i.e. the tree is `Cfg.current`; section 0
-restates the headline theorems for `Cfg.current` without any flag hypothesis. The theorems named
-`*_before_fix_*` are regression statements: what the code did before the repair (true theorems
-about the flag value `false`; the harness would drive the model with that value again if a repair
-were lost). `pc : PCfg` = which of the three repairs of the wire/processor layer the code has; NONE
-of them is in /repo yet (`PCfg.current = PCfg.pinned`): there the full-strength statements carry
-the repair flag as hypothesis, the `_partial` theorems say what the current code satisfies, and
-each defect is a proved theorem next to it.
+four are in /repo (a2bceaf, 32710c6, 8f80b72, d76716c): the tree is `Cfg.current`. `pc : PCfg` = the
+wire/processor layer: the UnitFromProto guard is in /repo (a0ebef4); the three processor repairs are
+NOT (upstream left the processor unfinished; the diffs in /verif/proposed-fixes are not applied):
+`PCfg.current = ⟨wireGuard, ¬noPoison, ¬localFromPresent, ¬keyGuard⟩`.
+
+Reading guide. §0–§8 are about the code as it is in /repo. Where /repo violates the full statement
+(§9, processor) the full-strength theorem carries the repair flag as hypothesis and the theorem
+named `*_current` next to it is the PROVED NEGATION for the code in /repo. §10 holds regression
+witnesses of repaired defects, named `*_before_fix_<commit>`: true statements about the flag value
+the code no longer has (the harness would drive the model with that value again if a repair were
+lost). The processor section (§9) is a model of unfinished upstream code: its tie to the real
+`Processor` runs on /repo with the two never-set fields (events channel, logger) set through a
+build overlay (`proposed-fixes/C19-processor-wiring.diff`), see notes/C19.md §3.
 -/
 namespace Juno.C19.Props
 open Juno.C19
@@ -76,23 +81,6 @@ theorem unpad_total (p : Bytes) :
       m = (p.drop ((uvarint p).2).toNat).take (uvarint p).1.toNat ∧
       m.length = (uvarint p).1.toNat :=
   unpad_guard_total p
-
-/-- Regression statement (UnpadMessage before 32710c6, `guard = false`): it panicked exactly when
-`varintLen + msgLen` wraps around `uint64` and the wrapped sum does not exceed the buffer length;
-on every other input it agreed with the repaired function. -/
-theorem unpad_before_fix_32710c6 (p : Bytes) (hlen : p.length < 2 ^ 64) :
-    (unpad false p = .panic ↔
-      (0 < (uvarint p).2 ∧ 2 ^ 64 ≤ ((uvarint p).2).toNat + (uvarint p).1.toNat ∧
-       ((uvarint p).2).toNat + (uvarint p).1.toNat - 2 ^ 64 ≤ p.length)) ∧
-    (unpad false p ≠ .panic → unpad false p = unpad true p) :=
-  ⟨unpad_pinned_panic_iff p hlen, unpad_variants_agree p hlen⟩
-
-/-- The replayed input of the fixed finding `unpad-panics-on-length-overflow`, `ff×9 01 00 00`:
-a panic before the repair (Go: `slice bounds out of range [10:9]`), a length error since. -/
-theorem unpad_overflow_witness :
-    unpad false [0xff, 0xff, 0xff, 0xff, 0xff, 0xff, 0xff, 0xff, 0xff, 0x01, 0, 0] = .panic ∧
-    unpad true [0xff, 0xff, 0xff, 0xff, 0xff, 0xff, 0xff, 0xff, 0xff, 0x01, 0, 0] = .err .length := by
-  decide
 
 /-! ## 2. Merkle tree: `merkle_complete`, `merkle_sound` -/
 
@@ -146,82 +134,24 @@ theorem created_unit_proof_verifies [DecidableEq H] (cfg : Cfg) (f : HashFns H) 
     (by simpa [hlen] using hi)
   simpa [honestUnit, treeOf, List.getD_eq_getElem?_getD, hlen, hi] using this
 
-/-- `reconstruct_any_subset` (ConstructMessageFromUnits taking the root from a present unit, as it
-does since a2bceaf): for every message, every `(k, p)` the codec accepts, EVERY selection `S` of at least
+/-- `reconstruct_any_subset` (the code in /repo, `Cfg.current`): for every message shorter than
+2^40 bytes, every `(k, p)` the codec accepts (up to 65536 shards), EVERY selection `S` of at least
 `k` of the `k+p` units made by CreatePropellerUnits — whichever are missing, shard 0 included — and
 every local shard index: ConstructMessageFromUnits returns exactly the message, the local shard
 and its proof. (Codec laws `RSLaws`; no assumption on the hash.) -/
-theorem reconstruct_any_subset [DecidableEq H] (cfg : Cfg) (hfix : cfg.rootFromPresent = true)
+theorem reconstruct_any_subset [DecidableEq H]
     (f : HashFns H) (rs : RS) (sg : SigScheme H) (C P : Bytes) (nonce : Nat) (msg : Bytes) (k p : Nat)
-    (hl : RSLaws rs k p) (hin : PadInput msg k) (hok : rsNewOk k p = true) (hsz : GoSized rs msg k p)
-    (units : List (PUnit H)) (hc : createUnits cfg f rs sg C P nonce msg k p = .ok units)
+    (hl : RSLaws rs k p) (hin : PadInput msg k) (hok : rsNewOk k p = true) (hsmall : msg.length < 2 ^ 40)
+    (units : List (PUnit H)) (hc : createUnits Cfg.current f rs sg C P nonce msg k p = .ok units)
     (S : List Bool) (hS : S.length = k + p) (hcount : k ≤ S.count true)
     (localIdx : Nat) (hloc : localIdx < k + p) :
-    construct cfg f rs (maskUnits S units) localIdx k p =
-      .ok (msg, (encOf rs msg k p).getD localIdx [], (treeOf cfg f rs msg k p).2.getD localIdx []) := by
-  rw [createUnits_eq cfg f rs sg C P nonce msg k p hin.1 hok] at hc
+    construct Cfg.current f rs (maskUnits S units) localIdx k p =
+      .ok (msg, (encOf rs msg k p).getD localIdx [], (treeOf Cfg.current f rs msg k p).2.getD localIdx []) := by
+  rw [createUnits_eq Cfg.current f rs sg C P nonce msg k p hin.1 hok] at hc
   injection hc with hc
   subst hc
-  exact construct_created cfg f rs C P _ _ msg k p hl hin hok hsz S hS hcount (Or.inl hfix) localIdx hloc
-
-/-- Regression statement (any `cfg`, in particular the code before a2bceaf): the same, for the
-selections that contain unit 0. -/
-theorem reconstruct_any_subset_before_fix_a2bceaf [DecidableEq H] (cfg : Cfg)
-    (f : HashFns H) (rs : RS) (sg : SigScheme H) (C P : Bytes) (nonce : Nat) (msg : Bytes) (k p : Nat)
-    (hl : RSLaws rs k p) (hin : PadInput msg k) (hok : rsNewOk k p = true) (hsz : GoSized rs msg k p)
-    (units : List (PUnit H)) (hc : createUnits cfg f rs sg C P nonce msg k p = .ok units)
-    (S : List Bool) (hS : S.length = k + p) (hcount : k ≤ S.count true) (h0 : S.head? = some true)
-    (localIdx : Nat) (hloc : localIdx < k + p) :
-    construct cfg f rs (maskUnits S units) localIdx k p =
-      .ok (msg, (encOf rs msg k p).getD localIdx [], (treeOf cfg f rs msg k p).2.getD localIdx []) := by
-  rw [createUnits_eq cfg f rs sg C P nonce msg k p hin.1 hok] at hc
-  injection hc with hc
-  subst hc
-  exact construct_created cfg f rs C P _ _ msg k p hl hin hok hsz S hS hcount (Or.inr h0) localIdx hloc
-
-/-- Regression statement (code before a2bceaf), for ALL messages and configurations: whenever shard
-0 is missing, however many other shards are present, ConstructMessageFromUnits panicked (nil
-dereference of `units[0]`). -/
-theorem reconstruct_panicked_without_shard0_before_fix_a2bceaf [DecidableEq H] (cfg : Cfg)
-    (hpinned : cfg.rootFromPresent = false)
-    (f : HashFns H) (rs : RS) (sg : SigScheme H) (C P : Bytes) (nonce : Nat) (msg : Bytes) (k p : Nat)
-    (hl : RSLaws rs k p) (hin : PadInput msg k) (hok : rsNewOk k p = true) (hsz : GoSized rs msg k p)
-    (units : List (PUnit H)) (hc : createUnits cfg f rs sg C P nonce msg k p = .ok units)
-    (S : List Bool) (hS : S.length = k + p) (hcount : k ≤ S.count true) (h0 : S.head? = some false)
-    (localIdx : Nat) (hloc : localIdx < k + p) :
-    construct cfg f rs (maskUnits S units) localIdx k p = .panic := by
-  rw [createUnits_eq cfg f rs sg C P nonce msg k p hin.1 hok] at hc
-  injection hc with hc
-  subst hc
-  exact construct_created_panics_pinned cfg f rs C P _ _ msg k p hl hin hok hsz S hS hcount hpinned h0
-    localIdx hloc
-
-/-- The concrete replay of the fixed finding `construct-panics-when-shard0-missing`, on the model:
-`(k, p) = (1, 1)` (three peers), message "hi", only unit 1 present. Before a2bceaf: panic. Now:
-the message. -/
-theorem reconstruct_without_shard0_witness (sg : SigScheme HTerm) (C P : Bytes) (nonce : Nat) :
-    (∃ units, createUnits Cfg.pinned termFns repCode11 sg C P nonce [104, 105] 1 1 = .ok units ∧
-      construct Cfg.pinned termFns repCode11 (maskUnits [false, true] units) 1 1 1 = .panic) ∧
-    (∃ units sh pr, createUnits Cfg.repaired termFns repCode11 sg C P nonce [104, 105] 1 1 = .ok units ∧
-      construct Cfg.repaired termFns repCode11 (maskUnits [false, true] units) 1 1 1 =
-        .ok ([104, 105], sh, pr)) := by
-  have hin : PadInput [104, 105] 1 := by unfold PadInput; decide
-  have hok : rsNewOk 1 1 = true := by decide
-  have hsz := goSized_of_small repCode11 [104, 105] 1 1 repCode11_laws hin hok (by decide)
-  refine ⟨⟨_, createUnits_eq Cfg.pinned termFns repCode11 sg C P nonce _ 1 1 hin.1 hok, ?_⟩,
-    ⟨_, (encOf repCode11 [104, 105] 1 1).getD 1 [],
-      (treeOf Cfg.repaired termFns repCode11 [104, 105] 1 1).2.getD 1 [],
-      createUnits_eq Cfg.repaired termFns repCode11 sg C P nonce _ 1 1 hin.1 hok, ?_⟩⟩
-  · exact construct_created_panics_pinned Cfg.pinned termFns repCode11 C P _ _ _ 1 1 repCode11_laws hin hok
-      hsz [false, true] rfl (by decide) rfl rfl 1 (by decide)
-  · exact construct_created Cfg.repaired termFns repCode11 C P _ _ _ 1 1 repCode11_laws hin hok hsz
-      [false, true] rfl (by decide) (Or.inl rfl) 1 (by decide)
-
-/-- The size side condition `GoSized` of the theorems above holds for every message shorter than
-2^50 bytes in every configuration the GF(2^8) codec accepts. -/
-theorem go_sized_of_small (rs : RS) (msg : Bytes) (k p : Nat) (hl : RSLaws rs k p) (hin : PadInput msg k)
-    (hok : rsNewOk k p = true) (hsmall : msg.length < 2 ^ 50) : GoSized rs msg k p :=
-  goSized_of_small rs msg k p hl hin hok hsmall
+  exact construct_created Cfg.current f rs C P _ _ msg k p hl hin hok
+    (goSized_of_small rs msg k p hl hin hok hsmall) S hS hcount (Or.inl rfl) localIdx hloc
 
 /-! ## 4. Nothing else can be delivered; the receiver does not fail -/
 
@@ -238,27 +168,16 @@ theorem construct_sound [DecidableEq H] (cfg : Cfg) (f : HashFns H) (hI : Ideal 
       pr = (treeOf cfg f rs msg k p).2.getD localIdx [] :=
   Juno.C19.construct_sound cfg f hI rs msg k p hl hin hsz U localIdx m sh pr hc hroot
 
-/-- `construct_total` — "… or the receiver to fail" (a2bceaf and 32710c6 in place): on ANY units that carry at
-least one shard each (the validator enforces exactly one) ConstructMessageFromUnits returns a
-value or an error, never panics. -/
-theorem construct_total [DecidableEq H] (cfg : Cfg) (f : HashFns H) (rs : RS)
-    (k p : Nat) (hl : RSLaws rs k p) (hk : 0 < k) (h1 : cfg.rootFromPresent = true)
-    (h2 : cfg.unpadGuard = true)
-    (U : List (Option (PUnit H))) (hU : ∀ u, some u ∈ U → u.shards ≠ []) (localIdx : Nat)
-    (hloc : localIdx < k + p) :
-    construct cfg f rs U localIdx k p ≠ .panic :=
-  Juno.C19.construct_total cfg f rs k p hl hk h1 h2 U hU localIdx hloc
-
-/-- Regression statement (any `cfg`): a panic of ConstructMessageFromUnits has one of the two causes
-repaired by a2bceaf and 32710c6 — `units[0]` missing, or the `uint64` overflow in UnpadMessage. -/
-theorem construct_panic_causes [DecidableEq H] (cfg : Cfg) (f : HashFns H) (rs : RS)
+/-- `construct_total` — "… or the receiver to fail" (the code in /repo): on ANY units that carry at
+least one shard each (the validator enforces exactly one; UnitFromProto at least one) and for a
+local index below `k+p`, ConstructMessageFromUnits returns a value or an error, never panics.
+(`local ≥ k+p` is a caller error: Go panics with index out of range, so does the model.) -/
+theorem construct_total [DecidableEq H] (f : HashFns H) (rs : RS)
     (k p : Nat) (hl : RSLaws rs k p) (hk : 0 < k)
     (U : List (Option (PUnit H))) (hU : ∀ u, some u ∈ U → u.shards ≠ []) (localIdx : Nat)
-    (hloc : localIdx < k + p)
-    (h : construct cfg f rs U localIdx k p = .panic) :
-    (cfg.rootFromPresent = false ∧ U.headD none = none) ∨
-    (cfg.unpadGuard = false ∧ ∃ full, unpad false full = .panic) :=
-  construct_panic_only_if cfg f rs k p hl hk U hU localIdx hloc h
+    (hloc : localIdx < k + p) :
+    construct Cfg.current f rs U localIdx k p ≠ .panic :=
+  Juno.C19.construct_total Cfg.current f rs k p hl hk rfl rfl U hU localIdx hloc
 
 /-! ## 5. The validator: `bad_unit_rejected`, per corrupted field -/
 
@@ -331,17 +250,6 @@ theorem bad_sender_rejected [DecidableEq H] (cfg : Cfg) (f : HashFns H) (sg : Si
     obtain ⟨e, he⟩ := origin_rejects_other_sender s sender u.publisher u.index expected hp h1 h2
     rw [he] at horig; cases horig
 
-/-- Who the designated broadcasters are: for a publisher in a duplicate-free committee of
-`k+p+1` peers every shard index `< k+p` has exactly one designated broadcaster, a member other than
-the publisher, and no peer is designated for two indices — so `bad_sender_rejected` leaves a
-Byzantine peer at most its own index. (The harness checks on the real `NewScheduler` that its peer
-list is duplicate-free and that `ShardIndexForPublisher` is the inverse map.) -/
-theorem designated_broadcaster_unique (s : Sched) (hnd : s.peers.Nodup)
-    (hlen : s.peers.length = s.total + 1) (pub : Bytes) (hp : pub ∈ s.peers) :
-    (∀ i, i < s.total → ∃ q, s.peerForShard pub i = .ok q ∧ q ∈ s.peers ∧ q ≠ pub) ∧
-    (∀ i j q, s.peerForShard pub i = .ok q → s.peerForShard pub j = .ok q → i = j) :=
-  peerForShard_spec s hnd hlen pub hp
-
 /-- `bad_unit_rejected` (signature / committee / nonce / root / publisher), over ANY sequence of
 deliveries through the processor's routing (one validator per message key, signature cached after
 the first verification), starting with no validators: every accepted unit carries a signature that
@@ -380,43 +288,23 @@ theorem no_index_accepted_twice [DecidableEq H] (cfg : Cfg) (f : HashFns H) (sg 
 
 /-! ## 6. Completeness of the validator (honest units are accepted) -/
 
-/-- `honest_unit_accepted`: when sharding.go and unit_validator.go use the same leaf encoding and the
-signature verifies over the unit's own fields, unit `i` of CreatePropellerUnits is accepted from a
-sender that passes the origin check, by a fresh validator or one that cached the same signature,
-unless index `i` was accepted before. -/
-theorem honest_unit_accepted [DecidableEq H] (cfg : Cfg) (f : HashFns H) (rs : RS) (sg : SigScheme H)
-    (s : Sched) (C P : Bytes) (nonce : Nat) (msg : Bytes) (k p i : Nat)
-    (hcfg : cfg.shardingLeafProto = cfg.validatorLeafProto)
-    (hl : RSLaws rs k p) (hin : PadInput msg k) (hi : i < k + p)
-    (st : VState) (hnew : i ∉ st.received) (sender : Bytes)
-    (horig : s.validateOrigin sender P i = .ok ())
-    (hsig : st.verifiedSig = some (sg.sign ⟨(treeOf cfg f rs msg k p).1, C, nonce⟩) ∨
-      (st.verifiedSig = none ∧ sg.sign ⟨(treeOf cfg f rs msg k p).1, C, nonce⟩ ≠ [] ∧
-       sg.verify P ⟨(treeOf cfg f rs msg k p).1, C, if cfg.nonceSet then nonce else 0⟩
-         (sg.sign ⟨(treeOf cfg f rs msg k p).1, C, nonce⟩) = true)) :
-    validate cfg f sg s P st (honestUnit cfg f rs sg C P nonce msg k p i) sender =
-      .ok { received := i :: st.received,
-            verifiedSig := some (sg.sign ⟨(treeOf cfg f rs msg k p).1, C, nonce⟩) } :=
-  validate_accepts_honest cfg f rs sg s C P nonce msg k p i hcfg hl hin hi st hnew sender horig hsig
-
-/-- Regression statement (leaf encodings before 8f80b72), for ALL messages, configurations and
-indices: every unit of CreatePropellerUnits failed `verifyDataShards`. -/
-theorem honest_unit_rejected_before_fix_8f80b72 [DecidableEq H] (cfg : Cfg) (f : HashFns H)
-    (hI : Ideal f) (rs : RS) (sg : SigScheme H) (C P : Bytes) (nonce : Nat) (msg : Bytes) (k p i : Nat)
-    (h1 : cfg.shardingLeafProto = false) (h2 : cfg.validatorLeafProto = true)
-    (hl : RSLaws rs k p) (hin : PadInput msg k) (hi : i < k + p) :
-    verifyDataShards cfg f (honestUnit cfg f rs sg C P nonce msg k p i) = .error .merkle :=
-  created_unit_rejected_when_leaf_encodings_differ cfg f hI rs sg C P nonce msg k p i h1 h2 hl hin hi
-
-/-- The unit's own (root, committee, nonce) is the payload the publisher signed iff
-CreatePropellerUnits stores the nonce (since d76716c) or the nonce is 0: before, with any other
-nonce, an unforgeable scheme rejected the signature of every honest unit. -/
-theorem created_unit_signed_payload (cfg : Cfg) (f : HashFns H) (rs : RS) (sg : SigScheme H) (C P : Bytes)
-    (nonce : Nat) (msg : Bytes) (k p i : Nat) :
-    let u := honestUnit cfg f rs sg C P nonce msg k p i
-    ((⟨u.root, u.committee, u.nonce⟩ : Payload H) = ⟨(treeOf cfg f rs msg k p).1, C, nonce⟩) ↔
-      (cfg.nonceSet = true ∨ nonce = 0) :=
-  created_unit_payload cfg f rs sg C P nonce msg k p i
+/-- `honest_unit_accepted` (the code in /repo, end to end): unit `i` of CreatePropellerUnits, sent by
+its designated sender, is accepted by a fresh validator of a receiver whose scheduler was made by
+`NewScheduler` — given only that signing then verifying succeeds and signatures are not empty. -/
+theorem honest_unit_accepted [DecidableEq H] (f : HashFns H) (rs : RS) (sg : SigScheme H)
+    (id : Bytes) (nodes : List Bytes) (s : Sched) (hs : newScheduler id nodes = .ok s)
+    (C P : Bytes) (hP : P ≠ id) (nonce : Nat) (msg : Bytes) (i : Nat) (sender : Bytes)
+    (hl : RSLaws rs s.k s.c) (hin : PadInput msg s.k) (hi : i < s.k + s.c)
+    (hsender : s.legitSender P i = some sender)
+    (hne : sg.sign ⟨(treeOf Cfg.current f rs msg s.k s.c).1, C, nonce⟩ ≠ [])
+    (hsv : sg.verify P ⟨(treeOf Cfg.current f rs msg s.k s.c).1, C, nonce⟩
+      (sg.sign ⟨(treeOf Cfg.current f rs msg s.k s.c).1, C, nonce⟩) = true) :
+    validate Cfg.current f sg s P VState.fresh (honestUnit Cfg.current f rs sg C P nonce msg s.k s.c i) sender =
+      .ok { received := [i], verifiedSig := some (sg.sign ⟨(treeOf Cfg.current f rs msg s.k s.c).1, C, nonce⟩) } := by
+  obtain ⟨_, _, _, _, _, _, _, _, hid, _, _⟩ := newScheduler_spec id nodes s hs
+  exact validate_accepts_honest Cfg.current f rs sg s C P nonce msg s.k s.c i rfl hl hin hi VState.fresh
+    (by simp [VState.fresh]) sender (origin_accepts_legit s P i sender (by rw [hid]; exact hP) hsender)
+    (Or.inr ⟨rfl, hne, hsv⟩)
 
 /-! ## 7. The scheduler `NewScheduler` builds -/
 
@@ -472,33 +360,19 @@ theorem unit_from_proto_shape (guard : Bool) (pu : ProtoUnit) (u : PUnit Bytes)
       (∀ s ∈ u.proof, s.length = 32) ∧ u.committee.length = 32 ∧ u.index < 2 ^ 32 :=
   unitFromProto_ok_shape guard pu u h
 
-/-- `unit_from_proto_total` (with proposed-fixes/C19-unit-from-proto-malformed-unit.diff,
-`wireGuard = true`): no protobuf unit whatsoever makes UnitFromProto panic. -/
-theorem unit_from_proto_total (pu : ProtoUnit) : unitFromProto true pu ≠ .panic :=
+/-- `unit_from_proto_total` (the code in /repo since a0ebef4, `wireGuard = true`): no protobuf unit
+whatsoever makes UnitFromProto panic. -/
+theorem unit_from_proto_total (pu : ProtoUnit) : unitFromProto PCfg.current.wireGuard pu ≠ .panic :=
   unitFromProto_total pu
 
-/- Full-strength statement for the code in /repo (`wireGuard = false`) — FALSE (known findings
-   `unit-from-proto-panics-on-unit-without-shards`, `unit-from-proto-panics-on-short-merkle-root`):
-     theorem unit_from_proto_total_current (pu) : unitFromProto false pu ≠ .panic
-   What holds instead: -/
-
-/-- `unit_from_proto_total_partial` (current code): it panics exactly on a unit without shards, or
-on one that passes the shard-length loop and has a Merkle root shorter than 32 bytes. Missing for
-full strength: those two inputs, both reachable from the network (`receiveUnits`). -/
-theorem unit_from_proto_total_partial (pu : ProtoUnit) :
-    unitFromProto false pu = .panic ↔
-      (pu.shards = [] ∨
-       ((pu.shards.take (pu.shards.length - 1)).any (fun s => s.length != (pu.shards.headD []).length) = false ∧
-        pu.merkleRoot.length < 32)) :=
-  unitFromProto_pinned_panic_iff pu
-
-/-- Negation witnesses: the empty unit, and a unit with one shard and no Merkle root. -/
-theorem unit_from_proto_panics_current :
-    unitFromProto false ⟨[], 0, [], [], [], [], [], 0⟩ = .panic ∧
-    unitFromProto false ⟨[[1, 2]], 0, [], [], [], [], [], 0⟩ = .panic ∧
-    unitFromProto true ⟨[], 0, [], [], [], [], [], 0⟩ = .err .noShards ∧
-    unitFromProto true ⟨[[1, 2]], 0, [], [], [], [], [], 0⟩ = .err .rootLen := by
-  decide
+/-- The rejections, in the order the code checks: a unit without shards is `no shards` whatever
+else is wrong with it; otherwise a Merkle root that is not 32 bytes is reported before the shard
+lengths are looked at. -/
+theorem unit_from_proto_error_order (pu : ProtoUnit) :
+    (pu.shards = [] → unitFromProto PCfg.current.wireGuard pu = .err .noShards) ∧
+    (pu.shards ≠ [] → pu.merkleRoot.length ≠ 32 →
+      unitFromProto PCfg.current.wireGuard pu = .err .rootLen) :=
+  unitFromProto_guard_errors pu
 
 /-! ## 9. The processor: units in any order, duplicates, forged units interleaved -/
 
@@ -551,62 +425,66 @@ theorem processor_builds_once [DecidableEq H] (cfg : Cfg) (pc : PCfg) (f : HashF
     (procRun cfg pc f rs sg s p ops)[j]? ≠ some (.handled bj (some mj) ej) :=
   procRun_builds_at_most_once cfg pc f rs sg s ops p i j hij ui uj si sj bi bj mi mj ei ej hi hj hk hbi
 
-/-- `rejected_unit_is_noop` (with proposed-fixes/C19-processor-first-invalid-unit-no-poison.diff,
-`noPoison = true`) — "a unit … that does not match is rejected and cannot cause … the receiver to
-fail": in any reachable state a unit rejected by the validator of its message key triggers no
-broadcast and no build, does not panic, and leaves every later outcome of every later unit — of
-any message — exactly what it would have been without it. -/
+/-- `rejected_unit_is_noop` (with `noPoison`, proposed-fixes/C19-processor-first-invalid-unit-no-poison.diff)
+— "a unit … that does not match is rejected and cannot cause … the receiver to fail": in any
+reachable state a unit rejected by the validator of its message key triggers no broadcast and no
+build, does not panic, and leaves every later outcome of every later unit — of any message —
+exactly what it would have been without it. -/
 theorem rejected_unit_is_noop [DecidableEq H] (cfg : Cfg) (pc : PCfg) (hfix : pc.noPoison = true)
     (f : HashFns H) (rs : RS) (sg : SigScheme H) (s : Sched) (p : Proc H) (hp : ProcInv s p)
     (u : PUnit H) (sender : Bytes) (e : VErr)
+    (hkey : pc.keyGuard = true ∨ sg.hasKey (keyOf u).publisher = true)
     (hrej : validate cfg f sg s (keyOf u).publisher
       ((p.findSub (keyOf u)).getD (SubState.fresh s.total)).v u sender = .error e) :
     (∀ bc b en, (procStep cfg pc f rs sg s p u sender).2 = .handled bc b en → bc = [] ∧ b = none) ∧
     (procStep cfg pc f rs sg s p u sender).2 ≠ .panic ∧
     ∀ ops, procRun cfg pc f rs sg s (procStep cfg pc f rs sg s p u sender).1 ops =
       procRun cfg pc f rs sg s p ops :=
-  Juno.C19.rejected_unit_is_noop cfg pc hfix f rs sg s p hp u sender e hrej
+  Juno.C19.rejected_unit_is_noop cfg pc hfix f rs sg s p hp u sender e hkey hrej
 
 /- Full-strength statement for the code in /repo (drop `hfix`) — FALSE (known finding
-   `processor-drops-message-after-invalid-first-unit`). What the current code does instead: -/
+   `processor-drops-message-after-invalid-first-unit`). What the code in /repo does instead: -/
 
-/-- `rejected_unit_is_noop_partial` (current code, `noPoison = false`) — the negation, for ALL
-messages: when the FIRST unit of a message key is rejected the key enters the finalized cache, and
-from then on every unit of that message, the honest ones included, is ignored. (A rejected unit that
-is not the first of its key is harmless in the current code too: `rejected_unit_is_noop` needs the
-flag only for that case.) -/
-theorem rejected_first_unit_suppresses_message_current [DecidableEq H] (cfg : Cfg) (pc : PCfg)
-    (hpin : pc.noPoison = false) (f : HashFns H) (rs : RS) (sg : SigScheme H) (s : Sched) (p : Proc H)
+/-- The proved negation for the code in /repo (`noPoison = false`), for ALL messages: when the FIRST
+unit of a message key is rejected the key enters the finalized cache, and from then on every unit of
+that message, the honest ones included, is ignored. -/
+theorem rejected_first_unit_suppresses_message_current [DecidableEq H] (cfg : Cfg)
+    (f : HashFns H) (rs : RS) (sg : SigScheme H) (s : Sched) (p : Proc H)
     (u : PUnit H) (sender : Bytes) (e : VErr) (li : Nat) (hnew : p.findSub (keyOf u) = none)
     (hnf : p.finalized.contains (keyOf u) = false)
     (hsi : s.shardIndexFor (keyOf u).publisher = .ok li)
+    (hkey : sg.hasKey (keyOf u).publisher = true)
     (hrej : validate cfg f sg s (keyOf u).publisher VState.fresh u sender = .error e)
     (ops : List (PUnit H × Bytes)) (i : Nat) (u' : PUnit H) (sender' : Bytes)
     (hop : ops[i]? = some (u', sender')) (hk : keyOf u' = keyOf u) :
-    (procRun cfg pc f rs sg s (procStep cfg pc f rs sg s p u sender).1 ops)[i]? = some .ignored :=
-  finalized_key_ignores_units cfg pc f rs sg s (keyOf u) ops _
-    (first_invalid_unit_poisons_key cfg pc hpin f rs sg s p u sender e li hnew hnf hsi hrej) i u' sender' hop hk
+    (procRun cfg PCfg.current f rs sg s (procStep cfg PCfg.current f rs sg s p u sender).1 ops)[i]? =
+      some .ignored :=
+  finalized_key_ignores_units cfg PCfg.current f rs sg s (keyOf u) ops _
+    (first_invalid_unit_poisons_key cfg PCfg.current rfl f rs sg s p u sender e li hnew hnf hsi hkey hrej)
+    i u' sender' hop hk
 
-/-- `subprocessor_total` (a2bceaf, 32710c6 and
-proposed-fixes/C19-processor-local-unit-from-present.diff in place): no unit, honest or forged, makes
-a subprocessor panic. -/
-theorem subprocessor_total [DecidableEq H] (cfg : Cfg) (pc : PCfg) (f : HashFns H) (rs : RS)
-    (sg : SigScheme H) (s : Sched) (key : MsgKey H) (li : Nat) (st : SubState H) (u : PUnit H)
-    (sender : Bytes) (h1 : cfg.rootFromPresent = true) (h2 : cfg.unpadGuard = true)
-    (h3 : pc.localFromPresent = true) (hl : RSLaws rs s.k s.c) (hk : 0 < s.k) (hli : li < s.total)
-    (hU : UnitsInv s key st) (hu : keyOf u = key) :
-    subStep cfg pc f rs sg s key.publisher li st u sender ≠ .panic :=
-  subStep_total cfg pc f rs sg s key li st u sender h1 h2 h3 hl hk hli hU hu
+/-- `processor_total` (a2bceaf, 32710c6 in place; with `localFromPresent` and `keyGuard`,
+proposed-fixes/C19-processor-local-unit-from-present.diff and
+C19-processor-publisher-key-check.diff): for a receiver whose scheduler `NewScheduler` made, in
+any reachable state, NO unit — honest or forged, whatever publisher it names — makes the processor
+panic. -/
+theorem processor_total [DecidableEq H] (pc : PCfg) (f : HashFns H) (rs : RS)
+    (sg : SigScheme H) (id : Bytes) (nodes : List Bytes) (s : Sched) (hs : newScheduler id nodes = .ok s)
+    (p : Proc H) (hp : ProcInv s p) (u : PUnit H) (sender : Bytes)
+    (h3 : pc.localFromPresent = true) (h4 : pc.keyGuard = true) (hl : RSLaws rs s.k s.c) :
+    (procStep Cfg.current pc f rs sg s p u sender).2 ≠ .panic :=
+  procStep_total Cfg.current pc f rs sg id nodes s hs p hp u sender rfl rfl h3 h4 hl
 
-/- Full-strength statement for the code in /repo (drop `h3`) — FALSE (known finding
-   `processor-panics-filling-local-unit-when-shard0-not-received`): -/
+/- Full-strength statement for the code in /repo (drop `h3`, `h4`) — FALSE twice (known findings
+   `processor-panics-filling-local-unit-when-shard0-not-received`,
+   `receiver-panics-on-publisher-without-embedded-key`): -/
 
-/-- `subprocessor_total_partial` (current code, `localFromPresent = false`) — the negation, for ALL
-messages: when the unit that completes the build threshold is accepted, the build succeeds, the
-local shard has not been forwarded and slot 0 is empty, the subprocessor panics (nil dereference of
-`unitsReceived[0]`) — in a goroutine of its own, which takes the node down. -/
-theorem subprocessor_panics_without_shard0_current [DecidableEq H] (cfg : Cfg) (pc : PCfg)
-    (hpin : pc.localFromPresent = false) (f : HashFns H) (rs : RS) (sg : SigScheme H) (s : Sched)
+/-- Negation 1 for the code in /repo (`localFromPresent = false`), for ALL messages: when the unit
+that completes the build threshold is accepted, the build succeeds, the local shard has not been
+forwarded and slot 0 is empty, the subprocessor panics (nil dereference of `unitsReceived[0]`) — in
+a goroutine of its own, which takes the node down. -/
+theorem processor_panics_without_shard0_current [DecidableEq H] (cfg : Cfg)
+    (f : HashFns H) (rs : RS) (sg : SigScheme H) (s : Sched)
     (publisher : Bytes) (li : Nat) (st : SubState H) (u : PUnit H) (sender : Bytes) (v' : VState)
     (r : Bytes × Bytes × List H)
     (hstage : st.built = none) (hv : validate cfg f sg s publisher st.v u sender = .ok v')
@@ -614,50 +492,113 @@ theorem subprocessor_panics_without_shard0_current [DecidableEq H] (cfg : Cfg) (
     (hc : construct cfg f rs (st.units.set u.index (some u)) li s.k s.c = .ok r)
     (hnot : st.localSent = false) (hli : li ≠ u.index)
     (h0 : (st.units.set u.index (some u)).headD none = none) :
-    subStep cfg pc f rs sg s publisher li st u sender = .panic :=
-  subStep_panics_filling_local_unit_pinned cfg pc hpin f rs sg s publisher li st u sender v' r hstage hv hk hc
-    hnot hli h0
+    subStep cfg PCfg.current f rs sg s publisher li st u sender = .panic :=
+  subStep_panics_filling_local_unit_pinned cfg PCfg.current rfl f rs sg s publisher li st u sender v' r
+    hstage hv hk hc hnot hli h0
 
-/-! ## 0. The code as it is now (`Cfg.current`): the headline theorems without flag hypotheses -/
+/-- Negation 2 for the code in /repo (`keyGuard = false`): ANY unit that names as publisher a
+committee member whose peer id does not embed a public key (RSA, ECDSA), for a message key the node
+has not seen, panics the processor (`NewValidator` → `panic(err)` in the goroutine of the new
+subprocessor). Nothing else about the unit is looked at: shards, proof, signature, sender. -/
+theorem processor_panics_on_keyless_publisher_current [DecidableEq H] (cfg : Cfg)
+    (f : HashFns H) (rs : RS) (sg : SigScheme H) (s : Sched) (p : Proc H)
+    (u : PUnit H) (sender : Bytes) (li : Nat)
+    (hnf : p.finalized.contains (keyOf u) = false) (hnew : p.findSub (keyOf u) = none)
+    (hsi : s.shardIndexFor (keyOf u).publisher = .ok li)
+    (hkey : sg.hasKey (keyOf u).publisher = false) :
+    (procStep cfg PCfg.current f rs sg s p u sender).2 = .panic :=
+  procStep_panics_on_keyless_publisher cfg PCfg.current rfl f rs sg s p u sender li hnf hnew hsi hkey
 
-theorem current_unpad_total (p : Bytes) : unpad Cfg.current.unpadGuard p ≠ .panic :=
-  (unpad_guard_total p).1
+/-! ## 10. Regression witnesses of repaired defects (`*_before_fix_<commit>`)
 
-theorem current_reconstruct_any_subset [DecidableEq H]
+True statements about flag values the code in /repo no longer has; kept so that the defect stays
+documented on the model and, should a repair be lost, the harness (which probes the flags) drives
+the model with the old value again. Not part of the property's coverage. -/
+
+/-- Regression statement (UnpadMessage before 32710c6, `guard = false`): it panicked exactly when
+`varintLen + msgLen` wraps around `uint64` and the wrapped sum does not exceed the buffer length;
+on every other input it agreed with the repaired function. -/
+theorem unpad_before_fix_32710c6 (p : Bytes) (hlen : p.length < 2 ^ 64) :
+    (unpad false p = .panic ↔
+      (0 < (uvarint p).2 ∧ 2 ^ 64 ≤ ((uvarint p).2).toNat + (uvarint p).1.toNat ∧
+       ((uvarint p).2).toNat + (uvarint p).1.toNat - 2 ^ 64 ≤ p.length)) ∧
+    (unpad false p ≠ .panic → unpad false p = unpad true p) :=
+  ⟨unpad_pinned_panic_iff p hlen, unpad_variants_agree p hlen⟩
+
+/-- The replayed input of the fixed finding `unpad-panics-on-length-overflow`, `ff×9 01 00 00`:
+a panic before the repair (Go: `slice bounds out of range [10:9]`), a length error since. -/
+theorem unpad_overflow_before_fix_32710c6 :
+    unpad false [0xff, 0xff, 0xff, 0xff, 0xff, 0xff, 0xff, 0xff, 0xff, 0x01, 0, 0] = .panic ∧
+    unpad true [0xff, 0xff, 0xff, 0xff, 0xff, 0xff, 0xff, 0xff, 0xff, 0x01, 0, 0] = .err .length := by
+  decide
+
+/-- Regression statement (code before a2bceaf), for ALL messages and configurations: whenever shard
+0 is missing, however many other shards are present, ConstructMessageFromUnits panicked (nil
+dereference of `units[0]`). -/
+theorem reconstruct_panicked_without_shard0_before_fix_a2bceaf [DecidableEq H] (cfg : Cfg)
+    (hpinned : cfg.rootFromPresent = false)
     (f : HashFns H) (rs : RS) (sg : SigScheme H) (C P : Bytes) (nonce : Nat) (msg : Bytes) (k p : Nat)
-    (hl : RSLaws rs k p) (hin : PadInput msg k) (hok : rsNewOk k p = true) (hsmall : msg.length < 2 ^ 50)
-    (units : List (PUnit H)) (hc : createUnits Cfg.current f rs sg C P nonce msg k p = .ok units)
-    (S : List Bool) (hS : S.length = k + p) (hcount : k ≤ S.count true)
+    (hl : RSLaws rs k p) (hin : PadInput msg k) (hok : rsNewOk k p = true) (hsz : GoSized rs msg k p)
+    (units : List (PUnit H)) (hc : createUnits cfg f rs sg C P nonce msg k p = .ok units)
+    (S : List Bool) (hS : S.length = k + p) (hcount : k ≤ S.count true) (h0 : S.head? = some false)
     (localIdx : Nat) (hloc : localIdx < k + p) :
-    construct Cfg.current f rs (maskUnits S units) localIdx k p =
-      .ok (msg, (encOf rs msg k p).getD localIdx [], (treeOf Cfg.current f rs msg k p).2.getD localIdx []) :=
-  reconstruct_any_subset Cfg.current rfl f rs sg C P nonce msg k p hl hin hok
-    (goSized_of_small rs msg k p hl hin hok hsmall) units hc S hS hcount localIdx hloc
+    construct cfg f rs (maskUnits S units) localIdx k p = .panic := by
+  rw [createUnits_eq cfg f rs sg C P nonce msg k p hin.1 hok] at hc
+  injection hc with hc
+  subst hc
+  exact construct_created_panics_pinned cfg f rs C P _ _ msg k p hl hin hok hsz S hS hcount hpinned h0
+    localIdx hloc
 
-theorem current_construct_total [DecidableEq H] (f : HashFns H) (rs : RS)
-    (k p : Nat) (hl : RSLaws rs k p) (hk : 0 < k)
-    (U : List (Option (PUnit H))) (hU : ∀ u, some u ∈ U → u.shards ≠ []) (localIdx : Nat)
-    (hloc : localIdx < k + p) :
-    construct Cfg.current f rs U localIdx k p ≠ .panic :=
-  Juno.C19.construct_total Cfg.current f rs k p hl hk rfl rfl U hU localIdx hloc
+/-- The concrete replay of the fixed finding `construct-panics-when-shard0-missing`, on the model:
+`(k, p) = (1, 1)` (three peers), message "hi", only unit 1 present. Before a2bceaf: panic. Now:
+the message. -/
+theorem reconstruct_without_shard0_before_fix_a2bceaf (sg : SigScheme HTerm) (C P : Bytes) (nonce : Nat) :
+    (∃ units, createUnits Cfg.pinned termFns repCode11 sg C P nonce [104, 105] 1 1 = .ok units ∧
+      construct Cfg.pinned termFns repCode11 (maskUnits [false, true] units) 1 1 1 = .panic) ∧
+    (∃ units sh pr, createUnits Cfg.repaired termFns repCode11 sg C P nonce [104, 105] 1 1 = .ok units ∧
+      construct Cfg.repaired termFns repCode11 (maskUnits [false, true] units) 1 1 1 =
+        .ok ([104, 105], sh, pr)) := by
+  have hin : PadInput [104, 105] 1 := by unfold PadInput; decide
+  have hok : rsNewOk 1 1 = true := by decide
+  have hsz := goSized_of_small repCode11 [104, 105] 1 1 repCode11_laws hin hok (by decide)
+  refine ⟨⟨_, createUnits_eq Cfg.pinned termFns repCode11 sg C P nonce _ 1 1 hin.1 hok, ?_⟩,
+    ⟨_, (encOf repCode11 [104, 105] 1 1).getD 1 [],
+      (treeOf Cfg.repaired termFns repCode11 [104, 105] 1 1).2.getD 1 [],
+      createUnits_eq Cfg.repaired termFns repCode11 sg C P nonce _ 1 1 hin.1 hok, ?_⟩⟩
+  · exact construct_created_panics_pinned Cfg.pinned termFns repCode11 C P _ _ _ 1 1 repCode11_laws hin hok
+      hsz [false, true] rfl (by decide) rfl rfl 1 (by decide)
+  · exact construct_created Cfg.repaired termFns repCode11 C P _ _ _ 1 1 repCode11_laws hin hok hsz
+      [false, true] rfl (by decide) (Or.inl rfl) 1 (by decide)
 
-/-- End to end on the current code: unit `i` of CreatePropellerUnits, sent by its designated sender,
-is accepted by a fresh validator of a receiver whose scheduler was made by `NewScheduler` — given
-only that signing then verifying succeeds and signatures are not empty. -/
-theorem current_honest_unit_accepted [DecidableEq H] (f : HashFns H) (rs : RS) (sg : SigScheme H)
-    (id : Bytes) (nodes : List Bytes) (s : Sched) (hs : newScheduler id nodes = .ok s)
-    (C P : Bytes) (hP : P ≠ id) (nonce : Nat) (msg : Bytes) (i : Nat) (sender : Bytes)
-    (hl : RSLaws rs s.k s.c) (hin : PadInput msg s.k) (hi : i < s.k + s.c)
-    (hsender : s.legitSender P i = some sender)
-    (hne : sg.sign ⟨(treeOf Cfg.current f rs msg s.k s.c).1, C, nonce⟩ ≠ [])
-    (hsv : sg.verify P ⟨(treeOf Cfg.current f rs msg s.k s.c).1, C, nonce⟩
-      (sg.sign ⟨(treeOf Cfg.current f rs msg s.k s.c).1, C, nonce⟩) = true) :
-    validate Cfg.current f sg s P VState.fresh (honestUnit Cfg.current f rs sg C P nonce msg s.k s.c i) sender =
-      .ok { received := [i], verifiedSig := some (sg.sign ⟨(treeOf Cfg.current f rs msg s.k s.c).1, C, nonce⟩) } := by
-  obtain ⟨_, _, _, _, _, _, _, _, hid, _, _⟩ := newScheduler_spec id nodes s hs
-  exact validate_accepts_honest Cfg.current f rs sg s C P nonce msg s.k s.c i rfl hl hin hi VState.fresh
-    (by simp [VState.fresh]) sender (origin_accepts_legit s P i sender (by rw [hid]; exact hP) hsender)
-    (Or.inr ⟨rfl, hne, hsv⟩)
+/-- Regression statement (leaf encodings before 8f80b72), for ALL messages, configurations and
+indices: every unit of CreatePropellerUnits failed `verifyDataShards`. -/
+theorem honest_unit_rejected_before_fix_8f80b72 [DecidableEq H] (cfg : Cfg) (f : HashFns H)
+    (hI : Ideal f) (rs : RS) (sg : SigScheme H) (C P : Bytes) (nonce : Nat) (msg : Bytes) (k p i : Nat)
+    (h1 : cfg.shardingLeafProto = false) (h2 : cfg.validatorLeafProto = true)
+    (hl : RSLaws rs k p) (hin : PadInput msg k) (hi : i < k + p) :
+    verifyDataShards cfg f (honestUnit cfg f rs sg C P nonce msg k p i) = .error .merkle :=
+  created_unit_rejected_when_leaf_encodings_differ cfg f hI rs sg C P nonce msg k p i h1 h2 hl hin hi
+
+/-- The unit's own (root, committee, nonce) is the payload the publisher signed iff
+CreatePropellerUnits stores the nonce (since d76716c) or the nonce is 0: before, with any other
+nonce, an unforgeable scheme rejected the signature of every honest unit. -/
+theorem created_unit_nonce_before_fix_d76716c (cfg : Cfg) (f : HashFns H) (rs : RS) (sg : SigScheme H) (C P : Bytes)
+    (nonce : Nat) (msg : Bytes) (k p i : Nat) :
+    let u := honestUnit cfg f rs sg C P nonce msg k p i
+    ((⟨u.root, u.committee, u.nonce⟩ : Payload H) = ⟨(treeOf cfg f rs msg k p).1, C, nonce⟩) ↔
+      (cfg.nonceSet = true ∨ nonce = 0) :=
+  created_unit_payload cfg f rs sg C P nonce msg k p i
+
+/-- UnitFromProto before a0ebef4 (`wireGuard = false`) panicked exactly on a unit without shards, or
+on one that passes the shard-length loop and has a Merkle root shorter than 32 bytes — both
+reachable from the network (`receiveUnits`). -/
+theorem unit_from_proto_before_fix_a0ebef4 (pu : ProtoUnit) :
+    unitFromProto false pu = .panic ↔
+      (pu.shards = [] ∨
+       ((pu.shards.take (pu.shards.length - 1)).any (fun s => s.length != (pu.shards.headD []).length) = false ∧
+        pu.merkleRoot.length < 32)) :=
+  unitFromProto_pinned_panic_iff pu
+
 
 /-! ## Non-vacuity: the hypotheses are satisfiable -/
 
@@ -666,8 +607,12 @@ example : RSLaws trivialCode 1 0 := trivialCode_laws
 example : RSLaws repCode11 1 1 := repCode11_laws
 example : PadInput [1, 2, 3] 3 := by unfold PadInput; decide
 example : rsNewOk 3 6 = true := by decide
-example : RoutesOk (⟨fun _ => [1], fun _ _ _ => true⟩ : SigScheme HTerm) [] := routesOk_nil _
-example : Cfg.current = Cfg.repaired ∧ PCfg.current = PCfg.pinned := ⟨rfl, rfl⟩
+example : RoutesOk (⟨fun _ => [1], fun _ _ _ => true, fun _ => true⟩ : SigScheme HTerm) [] := routesOk_nil _
+example : Cfg.current = Cfg.repaired ∧ PCfg.current = ⟨true, false, false, false⟩ := ⟨rfl, rfl⟩
+example : unitFromProto true ⟨[], 0, [], [], [], [], [], 0⟩ = .err .noShards ∧
+    unitFromProto true ⟨[[1, 2]], 0, [], [], [], [], [], 0⟩ = .err .rootLen ∧
+    unitFromProto true ⟨[[1, 2], [3], [4, 5]], 0, [0, 1], [], [], [], [], 0⟩ = .err .rootLen ∧
+    unitFromProto false ⟨[], 0, [], [], [], [], [], 0⟩ = .panic := by decide
 example : ProcInv (⟨[], 0, [], 1, 0⟩ : Sched) (Proc.empty : Proc HTerm) := procInv_empty _
 example : WireOk (⟨List.replicate 32 0, [1], List.replicate 32 7, [List.replicate 32 9], [5], 3, [[1, 2]], 8⟩ : PUnit Bytes) :=
   ⟨by simp, by simp, by simp, by simp, by simp, by decide, by decide⟩
